@@ -372,17 +372,35 @@ def norm_text(s: str) -> str:
     return _ID.sub("id=?", _ANON.sub("anonymous:?", _ADDR.sub("0x?", s)))
 
 
+def raise_line(exc):
+    """(file, line) of the innermost onnx_ir frame: identifies the raise statement."""
+    tb, out = exc.__traceback__, None
+    while tb is not None:
+        fn = tb.tb_frame.f_code.co_filename.replace("\\", "/")
+        if "/onnx_ir/" in fn:
+            out = (fn.rsplit("/onnx_ir/", 1)[1], tb.tb_lineno)
+        tb = tb.tb_next
+    return out
+
+
 def norm_result(w, res):
     if res.skipped:
         return ("skip",)
     if res.raised:
-        return ("exc", type(res.exc).__name__, norm_text(str(res.exc)), histories.raise_site(res.exc))
+        try:
+            text = norm_text(str(res.exc))
+        except Exception as e:  # noqa: BLE001 - e.g. the message embeds a half-constructed node
+            text = f"<message unprintable: {type(e).__name__}>"
+        return ("exc", type(res.exc).__name__, text, histories.raise_site(res.exc), raise_line(res.exc))
     r = res.ret
     if r is None or isinstance(r, (str, int, float, bool)):
         return ("ret", r)
     if w.known(r):
         return ("ret", w.label(r))
-    return ("ret", type(r).__name__, norm_text(repr(r)))
+    try:
+        return ("ret", type(r).__name__, norm_text(repr(r)))
+    except Exception as e:  # noqa: BLE001
+        return ("ret", type(r).__name__, f"<repr failed: {type(e).__name__}>")
 
 
 # =============================================================================================
